@@ -264,8 +264,16 @@ def flatten_c(T, v, depth=0, limit=64):
                 return [(c2, sq) for c2, sq in out if sq or True][:limit]
         if f in ('join', 'join_with', 'concat'):
             items = _source_items(T, v.get('recv'), depth + 1, limit)
+            sep = ''
+            if v.get('args'):
+                sp = flatten_c(T, v['args'][0], depth + 1, 4)
+                if sp:
+                    sep = ''.join(x[1] if x[0] in ('lit', 'lit*') else '{}' for x in sp[0][1])
             if items is not None:
-                return [(c2, [('joined', f)] + sq) for c2, sq in items][:limit] or [((), [])]
+                return [(c2, [('joined', f, sep)] + sq) for c2, sq in items][:limit] or [((), [])]
+            rcan = T.canon_s(v['recv']) if isinstance(v.get('recv'), dict) else None
+            if rcan is not None:
+                return [((), [('joined', f, sep), ('atom', rcan + '.[]', ())])]
             return [((), [('opaque', 'join(' + vt.show(v.get('recv'))[:80] + ')')])]
         rc = T.canon(v['recv']) if isinstance(v.get('recv'), dict) else None
         if rc is not None and rc[1] == [] and rc[0] in OWNERS:
@@ -279,7 +287,12 @@ def flatten_c(T, v, depth=0, limit=64):
         if subject is None:
             return [((), [('opaque', vt.show(v)[:80])])]
         sub = flatten_c(T, subject, depth + 1, limit)
-        return [(c2, [(('atom', x[1], x[2] + (f,)) if x[0] == 'atom' else (('lit*', x[1], f) if x[0] == 'lit' else x)) for x in sq]) for c2, sq in sub]
+        fname = f
+        if f in ('replace', 'split', 'trim_matches', 'strip_prefix', 'strip_suffix', 'trim_start_matches', 'trim_end_matches') and v.get('args'):
+            a0 = vt.strip(v['args'][0])
+            if isinstance(a0, dict) and a0.get('k') == 'lit':
+                fname = f + '(' + repr(str(a0.get('v'))) + ')'
+        return [(c2, [(('atom', x[1], x[2] + (fname,)) if x[0] == 'atom' else (('lit*', x[1], f) if x[0] == 'lit' else x)) for x in sq]) for c2, sq in sub]
     if kk in ('elem', 'field'):
         rp = resolve_proj(v)
         if rp is not None:
